@@ -97,6 +97,8 @@ def allOk {ε α β : Type} (f : α → Except ε β) : List α → Except ε (L
 inductive Ref where
   | src (i : Nat)   -- `#<id of the i-th source>`
   | verts           -- `#<id of the <vertices> element>` (a dict in the local scope)
+  | bad             -- a text that is no reference: shorter than two characters or without the leading `#`
+                    --   (and whose tail names nothing in the local scope: `x` + an id is read like `#` + that id by the first half)
 deriving DecidableEq, Repr
 
 /-- an `<input>` of the primitive / an `InputList` entry -/
@@ -126,6 +128,7 @@ def expandVertex (verts : List (VSem × Nat)) (inputs : List RawInput) : List Ra
 /-- second half: look the source up in the local scope -/
 def resolve (srcs : List Src) (i : RawInput) : Except DaeErr Input :=
   match i.ref with
+  | .bad => .error .malformed          -- "Incorrect source id": tested before the look-up
   | .verts => .error .brokenRef
   | .src k =>
     match srcs[k]? with
